@@ -186,6 +186,10 @@ def spec_value(df, sp, m, S, kind, emb, dims, off, variant=0):
     if k == "dict":
         out = {}
         items = [(SUB_NAMES[j], it) for j, it in enumerate(sp["items"])]
+        if (variant // 2) % 2 == 1:
+            # "first-listed subregion" is the order of mesh.subregions (anchor: "reversed subregion order so first
+            # wins"); the key order of the VALUE dictionary must not matter (seeded change C02-1)
+            items.reverse()
         dflt = sp["def"]
         if dflt["k"] != "none" and variant % 2 == 1:
             out["default"] = _item_value(dflt, kind, emb, cq, coords, off)
